@@ -31,8 +31,9 @@ fn loc_ok(lines: &[usize], row: usize, col: usize) -> bool {
   // 1-indexed; a position may sit on the (implicit) newline that ends a line, or just after the last line
   if row == 0 || col == 0 { return false; }
   if row > lines.len() + 1 { return false; }
-  let len = if row <= lines.len() { lines[row - 1] } else { 0 };
-  col <= len + 2
+  // after the newline the parser appends to the text there is exactly one position: the start of the next row
+  if row == lines.len() + 1 { return col == 1; }
+  col <= lines[row - 1] + 2
 }
 
 /// parse twice, check determinism and every range of an error report
@@ -109,10 +110,22 @@ fn load_corpus() -> Vec<String> {
 impl C09 {
   pub fn new(tier: Tier) -> C09 { let lim = tier.pick(12_000, usize::MAX); C09 { tier, corpus: load_corpus(), docs: super::c08::repo_documents().into_iter().filter(|(_, t)| t.len() <= lim).collect() } }
   fn n_doc_units(&self) -> u64 { self.docs.len() as u64 }
+  /// one unit per (context, first slot token)
+  fn n_slot_units(&self) -> u64 { (SLOT_CONTEXTS.len() * SLOT_TOKENS.len()) as u64 }
   fn n_tok_units(&self) -> u64 { (TOKENS.len() * TOKENS.len()) as u64 }
   fn corpus_stride(&self) -> usize { self.tier.pick(48, 2) }
   fn n_corpus_units(&self) -> u64 { 4 * ((self.corpus.len() + self.corpus_stride() - 1) / self.corpus_stride()) as u64 }
 }
+
+/// contexts with one hole: the hole is filled with every short token string, so that malformed patterns, subscripts, kinds,
+/// arguments ... are parsed where the grammar expects them (a stray token at top level only reaches the prose parser)
+pub const SLOT_CONTEXTS: [(&str, &str, bool); 11] = [
+  ("match-arm-pattern", "y := x?\n  | @ => 1\n  | * => 0.", true), ("generator-pattern", "q := {h | @ <- xs}", true),
+  ("function-arm-pattern", "f(a<f64>) => <f64>\n  ├ @ => 1\n  └ * => 0.", true), ("state-pattern", "#M(n<u64>) -> :A(n)\n  :A(@) -> :D(n)\n  :D(n) => n.", true),
+  ("subscript", "y := x[@]", false), ("kind-annotation", "x<@> := 1", false), ("call-arguments", "y := f(@)", false), ("table-header", "x := | @ | 1 |", false),
+  ("braces", "x := {@}", false), ("range-end", "x := 1..@", false), ("guard", "y := x?\n  | n, @ => 1\n  | * => 0.", false)];
+pub const SLOT_TOKENS: [&str; 24] = ["h", "t", "1", "[", "]", "(", ")", "{", "}", "|", ",", "...", "…", ":a", "*", " ", ":", "<", ">", "_", "\"s\"", "-", "..", "="];
+const SLOT_CORE: [&str; 8] = ["[", "]", "h", "|", ",", "(", ")", "..."];
 
 const NEST: [(&str, &str, &str); 8] = [("[", "1", "]"), ("(", "1", ")"), ("{", "1", "}"), ("x := [", "1 2", "]"), ("f(", "x", ")"), ("{{", "x", "}}"), ("\"", "a", "\""), ("<", "f64", ">")];
 
@@ -155,10 +168,28 @@ impl UnitRunner for C09 {
       // one unit per (family, depth): deep nesting is slow, the units run in parallel
       let k = (unit - self.n_tok_units() - self.n_corpus_units()) as usize;
       let (fam_i, depth) = (k / 5, k % 5 + 1);
-      if depth > self.tier.pick(4usize, 5usize) { return; }
+      if k < NEST.len() * 5 && depth > self.tier.pick(4usize, 5usize) { return; }
       if let Some((o, m, c)) = NEST.get(fam_i) { for d in depth..=depth { inputs.push((format!("{}{}{}", o.repeat(d), m, c.repeat(d)), "nesting")); inputs.push((format!("{}{}", o.repeat(d), m), "nesting-unclosed")); inputs.push((format!("{}{}", m, c.repeat(d)), "nesting-unopened")); } }
+      // slot families: every token string of length <= 2 (quick) / 3 (thorough) in every context; length 3 (quick) / 4 (thorough) over the core tokens;
+      // in the four pattern contexts also length 4 over the core tokens in the quick tier
+      if k >= NEST.len() * 5 + self.docs.len() {
+        let su = k - NEST.len() * 5 - self.docs.len();
+        let (ci, ti) = (su / SLOT_TOKENS.len(), su % SLOT_TOKENS.len());
+        if let Some((_, ctx, is_pattern)) = SLOT_CONTEXTS.get(ci) {
+          let a = SLOT_TOKENS[ti];
+          let mut fills: Vec<String> = vec![a.to_string()];
+          for b in SLOT_TOKENS.iter() { fills.push(format!("{}{}", a, b)); if self.tier == Tier::Thorough { for c in SLOT_TOKENS.iter() { fills.push(format!("{}{}{}", a, b, c)); } } }
+          if SLOT_CORE.contains(&a) {
+            for b in SLOT_CORE.iter() { for c in SLOT_CORE.iter() {
+              if self.tier == Tier::Quick { fills.push(format!("{}{}{}", a, b, c)); }
+              if self.tier == Tier::Thorough || *is_pattern { for d in SLOT_CORE.iter() { fills.push(format!("{}{}{}{}", a, b, c, d)); } }
+            } }
+          }
+          for f in fills { inputs.push((ctx.replace('@', &f), "slot")); }
+        }
+      }
       // whole documents of the repository (and, thorough, every prefix of the smaller ones that ends at a line end)
-      if k >= NEST.len() * 5 {
+      if k >= NEST.len() * 5 && k < NEST.len() * 5 + self.docs.len() {
         if let Some((_, text)) = self.docs.get(k - NEST.len() * 5) {
           inputs.push((text.clone(), "document"));
           if self.tier == Tier::Thorough && text.len() <= 6000 {
@@ -192,7 +223,7 @@ impl Check for C09 {
   fn level(&self) -> &'static str { "exploration" }
   fn unit_budget(&self, t: Tier) -> Duration { Duration::from_secs(t.pick(120, 600)) }
   fn drive(&mut self, tier: Tier, cfg: &PoolCfg, rep: &mut Report) {
-    let total = self.n_tok_units() + self.n_corpus_units() + NEST.len() as u64 * 5 + self.n_doc_units();
+    let total = self.n_tok_units() + self.n_corpus_units() + NEST.len() as u64 * 5 + self.n_doc_units() + self.n_slot_units();
     let (a, b) = (self.n_tok_units(), self.n_corpus_units());
     rep.describe = Some(Box::new(move |_p, u| (if u < a { "token-strings" } else if u < a + b { "corpus" } else { "nesting-or-document" }.to_string(), format!("unit {} (the worker names the exact text when it times a parse out)", u))));
     // pass 1: everything; pass 2 (other worker processes): one-/two-token strings, corpus and nesting again, digests compared
@@ -207,7 +238,7 @@ impl Check for C09 {
     let mut compared = 0u64;
     for (t, d) in &digests[1] { if let Some(d0) = digests[0].get(t) { compared += 1; if d0 != d { rep.out.failures.push(Failure { key: "C09|nondeterministic|across-processes".into(), case: format!("parse({:?})", t), detail: "the outcome (tree or report rendering) differs between two processes".into(), payload: "pass1".into(), unit: 0 }); } } }
     rep.cov("texts_compared_across_processes", json!(compared));
-    rep.rule = format!("every string of 1..2 tokens, and of 3 tokens with the third from 18 construct tokens (8 for pairs holding one of the 40 rarer sigils) (quick) / from the whole alphabet (thorough), over a {}-token alphabet (identifiers, digits, every bracket, operators, quotes, fences, comment sigils, box-drawing arm glyphs, an emoji, a combining sequence, CRLF, and every other leaf token of the parser: callout / float / prompt / footnote / image / highlight sigils, arrows, Mika glyphs, ...){}; {} blocks of the repository's own .mec files (every {}th block of <= 160 bytes) with every single-grapheme deletion, duplication, adjacent swap and every prefix; bracket/quote nesting families to depth 4 (quick) / 5 (thorough); every whole .mec document of the repository up to 12 KB (quick) / of any size (thorough) and, thorough, every prefix of the documents up to 6 KB that ends at a line end; \
+    rep.rule = format!("every string of 1..2 tokens, and of 3 tokens with the third from 18 construct tokens (8 for pairs holding one of the 40 rarer sigils) (quick) / from the whole alphabet (thorough), over a {}-token alphabet (identifiers, digits, every bracket, operators, quotes, fences, comment sigils, box-drawing arm glyphs, an emoji, a combining sequence, CRLF, and every other leaf token of the parser: callout / float / prompt / footnote / image / highlight sigils, arrows, Mika glyphs, ...){}; {} blocks of the repository's own .mec files (every {}th block of <= 160 bytes) with every single-grapheme deletion, duplication, adjacent swap and every prefix; bracket/quote nesting families to depth 4 (quick) / 5 (thorough); slot families (11 contexts with one hole - match-arm, generator, function-arm and state patterns, subscript, kind annotation, call arguments, table header, braces, range end, guard - filled with every string of <= 2 (quick) / 3 (thorough) of 24 tokens and of 3 / 4 of 8 core tokens, 4 in the pattern contexts also in the quick tier); every whole .mec document of the repository up to 12 KB (quick) / of any size (thorough) and, thorough, every prefix of the documents up to 6 KB that ends at a line end; \
       each text is parsed twice in a watchdog thread ({} s budget): the outcome must be a tree or an error report, never a panic or a non-terminating parse; every cause and annotation range of a report must lie inside text+newline with start <= end; the two parses and a parse in another worker process must render identically; evaluations = texts; non-trivial = texts that produced a tree or a report",
       TOKENS.len(), if tier == Tier::Thorough { " and every 4-token string over the 26 construct-opening/closing tokens" } else { "" }, self.n_corpus_units(), self.corpus_stride(), tier.pick(20, 40));
     rep.assumptions = vec!["a parse is called non-terminating when it exceeds the stated budget; nesting deeper than 5 is outside the bound (the parser is exponential in nesting depth)".into(), "rendering an error report (TextFormatter::format_error) is not part of this check".into(), "'reads nothing but the text' is checked structurally: parse() receives only the &str and the harness gives it no file or interpreter".into()];
